@@ -80,11 +80,47 @@ __CPROVER_ensures((g_pipe_peer == PAIR1_PEER && OLD(P1_S->p) != NULL) ==> (RV ==
 __CPROVER_ensures((g_pipe_peer == PAIR1_PEER && OLD(P1_S->p) == NULL) ==> (RV == 0 && P1_S->p == P1_P && !P1_S->rd_ready && g_pipe_recv_calls == OLD(g_pipe_recv_calls) + 1 && g_pipe_recv_pipe == P1_P->pipe && g_pipe_recv_aio == &P1_P->aio_recv && g_p1_sched_calls == OLD(g_p1_sched_calls) + 1))
 ;
 
-/* ASSUMED here (stub with a ghost counter; the body is not under contract yet) */
+#ifdef P1_SCHED_LIGHT
+/* light contract used ONLY where pair1_send_sched is replaced inside pair1_pipe_start
+ * (counts the call); the full contract below is enforced in its own unit */
 static void pair1_send_sched(pair1_sock *s)
 __CPROVER_assigns(g_p1_sched_calls)
 __CPROVER_ensures(g_p1_sched_calls == OLD(g_p1_sched_calls) + 1)
 ;
+#else
+/* ---- send scheduling: called when the pipe can take another message (C08 order / nothing lost) ---- */
+#define P1_Q0 LMQ_VIEW(&s->wmq, 0)
+static void pair1_send_sched(pair1_sock *s)
+__CPROVER_requires(P1_SOCK_PRE(s) && VP_NO_LOCK_HELD)
+__CPROVER_requires(s->p == NULL || (__CPROVER_is_fresh(s->p, sizeof(struct pair1_pipe)) && __CPROVER_pointer_in_range_dfcc(s, s->p->pair, s)))
+/* queued / waiting messages are real cooked-or-raw messages with their one-word hop header */
+__CPROVER_requires(s->wmq.lmq_len > 0 ==> (__CPROVER_is_fresh(P1_Q0, sizeof(struct nng_msg)) && P1_Q0->m_header_len == 4 && P1_Q0->m_refcnt.v == 1 && BE32(HDR(P1_Q0)) < 0xff))
+__CPROVER_requires(g_qb.n > 0 ==> (__CPROVER_is_fresh(g_qb.head->a_msg, sizeof(struct nng_msg)) && g_qb.head->a_msg->m_header_len == 4 && g_qb.head->a_msg->m_refcnt.v == 1 && BE32(HDR(g_qb.head->a_msg)) < 0xff))
+/* stable state: senders wait only when the buffer is full */
+__CPROVER_requires(g_qb.n == 0 || s->wmq.lmq_len >= s->wmq.lmq_cap)
+__CPROVER_requires(s->wmq.lmq_len > 0 ==> g_p == (void *) P1_Q0)
+__CPROVER_requires(g_qb.n > 0 ==> g_p2 == (void *) g_qb.head->a_msg)
+__CPROVER_requires((g_k >= 1 && g_k < s->wmq.lmq_len) ==> g_p3 == (void *) LMQ_VIEW(&s->wmq, g_k))
+__CPROVER_assigns(s->wr_ready, s->wmq.lmq_get, s->wmq.lmq_put, s->wmq.lmq_len, __CPROVER_object_whole(s->wmq.lmq_msgs), VP_PROTO_GHOST_LIST, VP_SYNC_GHOSTS)
+__CPROVER_assigns(s->p != NULL: s->p->aio_send.a_msg; s->wmq.lmq_len > 0: __CPROVER_object_from(P1_Q0->m_header_buf); g_qb.n > 0: g_qb.head->a_msg, __CPROVER_object_from(g_qb.head->a_msg->m_header_buf))
+__CPROVER_ensures(VP_NO_LOCK_HELD && VP_AIOQS_OK && LMQ_WF_SCALAR(&s->wmq))
+/* no pipe: nothing happens */
+__CPROVER_ensures(s->p == NULL ==> (g_pipe_send_calls == OLD(g_pipe_send_calls) && g_fin_calls == OLD(g_fin_calls) && s->wmq.lmq_len == OLD(s->wmq.lmq_len) && g_qb.n == OLD(g_qb.n)))
+/* buffered messages go first, oldest first, hop count +1 */
+__CPROVER_ensures((s->p != NULL && OLD(s->wmq.lmq_len) > 0) ==> (g_pipe_send_calls == OLD(g_pipe_send_calls) + 1 && (void *) g_pipe_send_msg == g_p && !s->wr_ready))
+__CPROVER_ensures((s->p != NULL && OLD(s->wmq.lmq_len) > 0 && g_k >= 1 && g_k < OLD(s->wmq.lmq_len)) ==> (void *) LMQ_VIEW(&s->wmq, g_k - 1) == g_p3)
+/* ... and a waiting sender's message takes the freed slot at the tail; that sender completes with success */
+__CPROVER_ensures((s->p != NULL && OLD(s->wmq.lmq_len) > 0 && OLD(g_qb.n) > 0) ==> (s->wmq.lmq_len == OLD(s->wmq.lmq_len) && (void *) LMQ_VIEW(&s->wmq, s->wmq.lmq_len - 1) == g_p2 && g_qb.n == OLD(g_qb.n) - 1 && g_fin_calls == OLD(g_fin_calls) + 1 && g_fin_last == OLD(g_qb.head) && g_fin_last_rv == 0 && g_fin_last_msg == NULL))
+__CPROVER_ensures((s->p != NULL && OLD(s->wmq.lmq_len) > 0 && OLD(g_qb.n) == 0) ==> (s->wmq.lmq_len == OLD(s->wmq.lmq_len) - 1 && g_fin_calls == OLD(g_fin_calls)))
+/* unbuffered: a waiting sender's message goes straight to the pipe */
+__CPROVER_ensures((s->p != NULL && OLD(s->wmq.lmq_len) == 0 && OLD(g_qb.n) > 0) ==> (g_pipe_send_calls == OLD(g_pipe_send_calls) + 1 && (void *) g_pipe_send_msg == g_p2 && !s->wr_ready && g_qb.n == OLD(g_qb.n) - 1 && g_fin_calls == OLD(g_fin_calls) + 1 && g_fin_last == OLD(g_qb.head) && g_fin_last_rv == 0 && g_fin_last_msg == NULL))
+/* nothing to send: the pipe is remembered as ready */
+__CPROVER_ensures((s->p != NULL && OLD(s->wmq.lmq_len) == 0 && OLD(g_qb.n) == 0) ==> (s->wr_ready && g_pipe_send_calls == OLD(g_pipe_send_calls) && g_fin_calls == OLD(g_fin_calls)))
+/* C15: room in the buffer or a ready pipe => the send descriptor is raised */
+__CPROVER_ensures((s->p != NULL && (s->wmq.lmq_len < s->wmq.lmq_cap || s->wr_ready)) ==> g_pollw)
+;
+
+#endif
 
 /* ---- socket send (C08 back-pressure, C15 non-blocking rule, C03 ownership) ---- */
 #define P1_SM (aio->a_msg)
